@@ -29,13 +29,13 @@ def plan(ctx):
     return [('easy', 3), ('genesis', 1)] if ctx.quick else [('easy', 4), ('genesis', 2)]
 
 
-def run(ctx, worker=_worker, prop=PROP, labels=LABELS):
+def run(ctx, worker=_worker, prop=PROP, labels=LABELS, plan_fn=None, universe_fn=None):
     ledger.setup()
     jobs = []
     per_depth = {}
     samples = []
-    for kind, depth in plan(ctx):
-        uni = ledger.tx_universe(kind)
+    for kind, depth in (plan_fn or plan)(ctx):
+        uni = universe_fn(kind) if universe_fn else ledger.tx_universe(kind)
         levels = ledger.enumerate_histories(uni, PREFIX, labels, depth)
         hists = [h for lv in levels for h in lv]
         per_depth[kind] = [len(l) for l in levels]
